@@ -18,7 +18,7 @@ import mutscreen as M
 import gen_src as G
 
 DEPENDENTS = {"encode_varint": ["encode_varint", "prepend_compact_size", "add_magic_prefix"], "op_push_data": ["op_push_data", "push_integer"],
-              "schnorr_tagged_hash": ["tagged_hash"], "get_target_bits": ["block_header"], "txout_to_bytes": ["tx_parts", "tx_whole"], "txin_to_bytes": ["tx_parts", "tx_whole"], "witness_to_bytes": ["tx_whole"], "tx_to_bytes": ["tx_whole", "tx_ids"], "get_txid": ["tx_ids"], "segwit_digest": ["segwit_digest"], "taproot_digest": ["taproot_digest"], "get_hash": ["tx_ids"], "get_size": ["tx_ids"], "serialize_header": ["block_header"], "get_block_hash": ["block_header"], "tagged_hash": ["tagged_hash", "tapbranch_tagged_hash", "tapleaf_tagged_hash"]}
+              "schnorr_tagged_hash": ["tagged_hash"], "get_target_bits": ["block_header"], "txout_to_bytes": ["tx_parts", "tx_whole"], "txin_to_bytes": ["tx_parts", "tx_whole"], "witness_to_bytes": ["tx_whole"], "tx_to_bytes": ["tx_whole", "tx_ids"], "get_txid": ["tx_ids"], "segwit_digest": ["segwit_digest"], "legacy_digest": ["legacy_digest"], "taproot_digest": ["taproot_digest"], "get_hash": ["tx_ids"], "get_size": ["tx_ids"], "serialize_header": ["block_header"], "get_block_hash": ["block_header"], "tagged_hash": ["tagged_hash", "tapbranch_tagged_hash", "tapleaf_tagged_hash"]}
 ONLY = [a for a in sys.argv[1:] if not a.startswith("--") and not a.endswith(".json") and not a.isdigit()]
 MAXPER = int(sys.argv[sys.argv.index("--max") + 1]) if "--max" in sys.argv else 0   # sample at most this many mutants per function
 
@@ -35,6 +35,14 @@ def probes(qual, file=""):
                     for ext in (0, 1):
                         out.append((nin, nout, idx, ht, ext))
         out.append((2, 2, 5, 1, 0)); out.append((1, 1, 0, 256, 0)); out.append((1, 1, 0, 1, 200))
+        return out
+    if qual == "Transaction.get_transaction_digest":
+        out = []
+        for nin, nout in ((1, 1), (2, 3), (3, 1), (2, 0)):
+            for idx in range(nin):
+                for ht in (1, 2, 3, 0x81, 0x82, 0x83):
+                    out.append((nin, nout, idx, ht))
+        out.append((2, 2, 5, 1)); out.append((1, 1, 0, 2 ** 31))
         return out
     if qual == "Transaction.get_transaction_segwit_digest":
         out = []
@@ -126,6 +134,14 @@ for args in T.probes(qual, file):
             tx = transactions.Transaction(ins, outs, has_segwit=True)
             spks = [script.Script(["OP_1", "dd" * 32]) if i - 2 * (i // 2) else script.Script(["OP_0", "ee" * 20]) for i in range(nin)]
             r = tx.get_transaction_taproot_digest(idx, spks, [5000 + i for i in range(nin)], ext, script.Script(["ff" * 32, "OP_CHECKSIG"]), 0xc0, ht)
+        elif qual == "Transaction.get_transaction_digest":
+            nin, nout, idx, ht = args
+            ins = [transactions.TxInput("{:064x}".format(i + 1), i * 7, script.Script(["aa" * (i + 1)]), bytes([i, 0, 0, 255 - i])) for i in range(nin)]
+            outs = [transactions.TxOutput(1000 + i, script.Script(["OP_1", "bb" * (20 + i)])) for i in range(nout)]
+            tx = transactions.Transaction(ins, outs, has_segwit=False)
+            before = tx.to_bytes(False)
+            r = tx.get_transaction_digest(idx, script.Script(["OP_DUP", "cc" * 20, "OP_CHECKSIG"]), ht)
+            r = (r, tx.to_bytes(False) == before)
         elif qual == "Transaction.get_transaction_segwit_digest":
             nin, nout, idx, ht, amt = args
             ins = [transactions.TxInput("{:064x}".format(i + 1), i * 7, script.Script([]), bytes([i, 0, 0, 255 - i])) for i in range(nin)]
